@@ -12,7 +12,7 @@ NULL = -1000001
 
 
 # --------------------------------------------------------------------------------------------- data
-def make_tables(seed, nrows=(9, 7), nulls=True, wide=False, presorted=False):
+def make_tables(seed, nrows=(9, 7), nulls=True, wide=False, presorted=False, t2_index="overlap"):
     """two small pandas tables T1(a, b, k), T2(k, b, c) with duplicate keys, NULLs, unique sorted int index 'ix'"""
     import numpy as np
     import pandas as pd
@@ -26,6 +26,10 @@ def make_tables(seed, nrows=(9, 7), nulls=True, wide=False, presorted=False):
                       index=pd.Index(sorted(rnd.sample(range(0, 40), n1)), name="ix"))
     t2 = pd.DataFrame({"k": col(n2, 5, 0.1), "b": col(n2, 3, 0.0), "c": col(n2, 4, 0.15)},
                       index=pd.Index(sorted(rnd.sample(range(0, 40), n2)), name="ix"))
+    if t2_index in ("touch", "after"):
+        # T2's index range starts exactly at (touch) / strictly after T1's last label: axis=0 concat can keep divisions
+        start = int(t1.index.max()) + (0 if t2_index == "touch" else 3)
+        t2.index = pd.Index([start + 2 * i for i in range(n2)], name="ix")
     if presorted:
         # T1 already ordered by k (ties included, NULL keys last): the planner's presorted fast paths are taken, and
         # the exhaustive layouts cut inside runs of equal keys
